@@ -70,7 +70,22 @@ func vSplit(target string, idx []string, style int) (prefix, path *pb.Path) {
 
 // vValue draws a TypedValue: int, string or bool arm with symbolic payload.
 func vValue(h *zz.H, name string, arms int) *pb.TypedValue {
-	switch h.Range(name+"_arm", 0, arms-1) {
+	if m := h.Param("ARMMASK", 0); m != 0 {
+		var sel []int
+		for a := 0; a < 10; a++ {
+			if m&(1<<a) != 0 {
+				sel = append(sel, a)
+			}
+		}
+		return vValueArm(h, name, sel[h.Range(name+"_arm", 0, len(sel)-1)])
+	}
+	return vValueArm(h, name, h.Range(name+"_arm", 0, arms-1))
+}
+
+// vValueArm: arms 0..4 scalars (int, string, bool, double, decimal); 5 leaf-list of 0..2 int or
+// string members; 6 uint; 7 bytes (<= 2); 8 ascii; 9 float.
+func vValueArm(h *zz.H, name string, arm int) *pb.TypedValue {
+	switch arm {
 	case 0:
 		return &pb.TypedValue{Value: &pb.TypedValue_IntVal{IntVal: h.Int64(name + "_i")}}
 	case 1:
@@ -81,6 +96,25 @@ func vValue(h *zz.H, name string, arms int) *pb.TypedValue {
 		return &pb.TypedValue{Value: &pb.TypedValue_DoubleVal{DoubleVal: h.Float64(name + "_d")}}
 	case 4:
 		return &pb.TypedValue{Value: &pb.TypedValue_DecimalVal{DecimalVal: &pb.Decimal64{Digits: h.Int64(name + "_digits"), Precision: h.Uint32(name + "_prec")}}}
+	case 5:
+		ll := &pb.ScalarArray{}
+		n := h.Range(name+"_ll_len", 0, 2)
+		for i := 0; i < n; i++ {
+			if h.Range(name+"_ll_arm", 0, 1) == 0 {
+				ll.Element = append(ll.Element, &pb.TypedValue{Value: &pb.TypedValue_IntVal{IntVal: h.Int64(name + "_ll_i")}})
+			} else {
+				ll.Element = append(ll.Element, &pb.TypedValue{Value: &pb.TypedValue_StringVal{StringVal: h.Atom(name + "_ll_s")}})
+			}
+		}
+		return &pb.TypedValue{Value: &pb.TypedValue_LeaflistVal{LeaflistVal: ll}}
+	case 6:
+		return &pb.TypedValue{Value: &pb.TypedValue_UintVal{UintVal: h.Uint64(name + "_u")}}
+	case 7:
+		return &pb.TypedValue{Value: &pb.TypedValue_BytesVal{BytesVal: []byte(h.Bytes(name+"_y", 2))}}
+	case 8:
+		return &pb.TypedValue{Value: &pb.TypedValue_AsciiVal{AsciiVal: h.Atom(name + "_a")}}
+	case 9:
+		return &pb.TypedValue{Value: &pb.TypedValue_FloatVal{FloatVal: h.Float32(name + "_f")}}
 	default:
 		return nil
 	}
